@@ -403,6 +403,16 @@ Section UF.
     - lra.
     - apply Rgt_not_eq, sqrt_lt_R0. lra.
   Qed.
+
+  Lemma uf5_defined : UF5_defined 2 (Z.of_nat n) x. Proof. unfold UF5_defined. uf_defined4; lra. Qed.
+  Lemma uf6_defined : UF6_defined 2 (Z.of_nat n) x.
+  Proof.
+    unfold UF6_defined. uf_defined6.
+    all: try lra.
+    all: assert (J2 : 2 <= IZR j) by (apply (IZR_le 2); lia).
+    - lra.
+    - apply Rgt_not_eq, sqrt_lt_R0. lra.
+  Qed.
 End UF.
 
 Example uf_hyps_30 : (3 <= 30)%nat /\ length (repeat (1 / 2) 30) = 30%nat /\ 0 <= X (repeat (1 / 2) 30) 0.
